@@ -1,3 +1,5 @@
 INIT Init
 NEXT Next
-CONSTANT MaxFragments = 2
+CONSTANTS
+  MaxFragments = 2
+  MaxPatternFragments = 1
